@@ -31,7 +31,7 @@ REQUIRED = ["tile_checked", "tile_nonconstant_pilot", "prefix_checked:nonnegmean
             "estimate_strictly_between_1_and_N", "never_crossed_returns_N", "random_order_false_cases",
             "contract:Assertion.find_sample_size", "raire_estimator_checked", "comparison_checked_assorter_bound_not_1", "audit_oneaudit_checked", "audit_oneaudit_both_rates_positive", "contest_oneaudit_checked",
             "polling_same_assertion_asked_again_after_tally_revised", "tile_assertion_checked",
-            "tile_assertion_checked:pilot_total_alone_exceeds_N_t"]
+            "tile_assertion_checked:pilot_total_alone_exceeds_N_t", "contest_estimates_with_some_assertions_already_confirmed"]
 ASSUMPTIONS = ["int(1/r) is the documented spacing of assumed errors", "n_big >= 1 for interleave_values (a polling "
                "assertion has winner tally > loser tally >= 0)", "rates are always passed explicitly for comparison audits"]
 N_CASES = {"quick": 64000, "thorough": 512000}
@@ -451,6 +451,13 @@ def run_contest(case, rng, rec):
     for name, asn in con.assertions.items():
         asn.margin = (tal["A"] - tal[asn.loser]) / N
         asn.test.u = asn.assorter.upper_bound if at == "POLLING" else 2 / (2 - asn.margin / asn.assorter.upper_bound)
+    if rng.random() < 0.4:
+        # between rounds some assertions are already confirmed: the contest's estimate is still the largest among ITS
+        # assertions (the property makes no exception; the audit-level function is where confirmed ones are skipped)
+        for j, asn in enumerate(con.assertions.values()):
+            if j == 0 or rng.random() < 0.3:
+                asn.proved, asn.p_value = True, con.risk_limit / 2
+        rec.count("contest_estimates_with_some_assertions_already_confirmed")
     del LOG[:]
     with np.errstate(all="ignore"):
         ok, got = rec.guard("c16.call:Contest.find_sample_size", con.find_sample_size, audit)
